@@ -13,6 +13,7 @@ import JumanjiModel.Env.RobotWarehouse.ShelfLemmas
 import JumanjiModel.Env.RobotWarehouse.RewardLemmas
 import JumanjiModel.Env.RobotWarehouse.ResetLemmas
 import JumanjiModel.Env.RobotWarehouse.EpisodeLemmas
+import JumanjiModel.Env.RobotWarehouse.SpecValid
 open Jm RobotWarehouse
 
 namespace Props.C04
@@ -536,6 +537,114 @@ theorem robot_warehouse_obs_bounds_cover (cfg : Cfg) (o : Obs) :
 
 /-- the bound is attained: with `time_limit = 1` the first step emits `step_count = 1` -/
 example : (step { Props.C04.rwareWitCfg with timeLimit := 1 } Props.C04.rwareWit [0] []).2.obs.stepCount = 1 := by decide
+/-! #### (wave 4) membership in the DECLARED specs: structure, shapes, dtypes and bounds -/
+open Sp PzS PkS MaS
+
+/-- the model's `obsSpec` / `actionSpec` / reward and discount specs ARE the specs generated from the real spec objects
+(Gen/Specs.lean) for the catalogue configuration `RobotWarehouse(RandomGenerator(1, 3, 2, num_agents=2, sensor_range=1, 2),
+time_limit=9)`: fields `agents_view`, `action_mask`, `step_count`; shapes `(A, num_obs_features) = (2, 66)`, `(A, 5)`, `()`;
+dtypes int32, bool, int32; `agents_view` UNBOUNDED (`specs.Array`), mask `[0, 1]`, counter `[0, time_limit]` -/
+theorem robot_warehouse_obsSpec_generated :
+    prefixed "observation_spec." (obsSpec ⟨9, 1, [], []⟩ 2) = declared "robotwarehouse-small" "observation_spec." ∧
+    [("action_spec", actionSpec 2)] = declared "robotwarehouse-small" "action_spec" ∧
+    [("reward_spec", PzS.rewardSpec)] = declared "robotwarehouse-small" "reward_spec" ∧
+    [("discount_spec", PzS.discountSpec)] = declared "robotwarehouse-small" "discount_spec" := by
+  refine ⟨by decide, by decide, by decide, by decide⟩
+
+/-- the invariant behind the membership theorems (`A` agents, a cached `(A, 5)` mask, counter ≥ 0) is established by the
+generator for EVERY draw in the support of `spawn_random_entities` and preserved by EVERY step: any integers as joint action
+(any length, in the action space or not, masked or not), any integers as draw, MID or LAST, collision or not -/
+theorem robot_warehouse_specInv_invariant (cfg : Cfg) (A : Nat) :
+    (∀ q d, validSpawn A q cfg.highways d = true → SpecInv A (generate cfg d)) ∧
+    (∀ (s : State) (a d : List Int), SpecInv A s → SpecInv A (step cfg s a d).1) :=
+  ⟨fun q d hd => RobotWarehouse.generate_specInv cfg A q d hd, fun s a d h => RobotWarehouse.step_specInv cfg A s h a d⟩
+
+/-- every sensor vector has exactly `num_obs_features = 8 + 5·((2r+1)² − 1) + 2·(2r+1)²` entries, for EVERY world and agent index
+(each `dynamic_update_slice` keeps the length) -/
+theorem robot_warehouse_agentObs_length (cfg : Cfg) (w : World) (i : Nat) :
+    (agentObs cfg w i).length = numFeatures cfg.sensorRange := RobotWarehouse.agentObs_length cfg w i
+
+/-- the `reset` observation is accepted by `observation_spec.validate` for EVERY draw of the generator (`A ≥ 1` agents,
+`time_limit ≥ 0`, any floor) -/
+theorem robot_warehouse_reset_obs_valid (cfg : Cfg) (A q : Nat) (hA : 0 < A) (hT : 0 ≤ cfg.timeLimit) (d : SpawnDraw)
+    (hd : validSpawn A q cfg.highways d = true) :
+    (obsSpec cfg A).valid (toNValue (resetTs cfg (generate cfg d)).obs) = true :=
+  RobotWarehouse.reset_obs_valid cfg A hA hT _ (RobotWarehouse.generate_specInv cfg A q d hd) rfl
+
+/-- … and on any state satisfying the invariant with counter 0 -/
+theorem robot_warehouse_reset_obs_valid_of_inv (cfg : Cfg) (A : Nat) (hA : 0 < A) (hT : 0 ≤ cfg.timeLimit) (s : State)
+    (h : SpecInv A s) (h0 : s.stepCount = 0) : (obsSpec cfg A).valid (toNValue (resetTs cfg s).obs) = true :=
+  RobotWarehouse.reset_obs_valid cfg A hA hT s h h0
+
+/-- the observation of EVERY `step` — any integers as joint action, any integers as draw, MID or LAST — from every state with
+the invariant whose counter has not reached the limit -/
+theorem robot_warehouse_step_obs_valid (cfg : Cfg) (A : Nat) (hA : 0 < A) (s : State) (h : SpecInv A s)
+    (hlim : s.stepCount < cfg.timeLimit) (a d : List Int) :
+    (obsSpec cfg A).valid (toNValue (step cfg s a d).2.obs) = true :=
+  RobotWarehouse.step_obs_valid cfg A hA s h hlim a d
+
+example : SpecInv 1 Props.C04.rwareWit := by decide
+
+/-- WHOLE PLAYS: along `run` (the L1 step iterated over ANY (joint action, draw) pairs) from the reset state of ANY draw of the
+generator, every observation emitted by one of the first `time_limit` steps is a member of the spec; step `time_limit` is LAST
+(`robot_warehouse_episode_last_by_limit`), so this covers every observation of every episode incl. the terminal one -/
+theorem robot_warehouse_obs_valid_along (cfg : Cfg) (A q : Nat) (hA : 0 < A) (d : SpawnDraw)
+    (hd : validSpawn A q cfg.highways d = true) (ps : List (List Int × List Int)) (j : Nat)
+    (hj : (j : Int) < cfg.timeLimit) (e : State × TimeStep Obs) (he : (run cfg (generate cfg d) ps)[j]? = some e) :
+    (obsSpec cfg A).valid (toNValue e.2.obs) = true :=
+  RobotWarehouse.run_obs_valid cfg A hA ps _ 0 (RobotWarehouse.generate_specInv cfg A q d hd) rfl j (by simpa using hj) e he
+
+theorem robot_warehouse_run_obs_valid (cfg : Cfg) (A : Nat) (hA : 0 < A) (s : State) (h : SpecInv A s)
+    (h0 : s.stepCount = 0) (ps : List (List Int × List Int)) (j : Nat) (hj : (j : Int) < cfg.timeLimit)
+    (e : State × TimeStep Obs) (he : (run cfg s ps)[j]? = some e) : (obsSpec cfg A).valid (toNValue e.2.obs) = true :=
+  RobotWarehouse.run_obs_valid cfg A hA ps s 0 h (by simpa using h0) j (by simpa using hj) e he
+
+/-- what membership means: `validate` accepts an observation ONLY IF there are `A` sensor vectors with `A · num_obs_features`
+entries in all, the mask is `(A, 5)` and the counter lies in `[0, time_limit]` (the sensor VALUES are unconstrained: the leaf is
+an unbounded `Array`) -/
+theorem robot_warehouse_obs_valid_only (cfg : Cfg) (A : Nat) (o : Obs) (h : (obsSpec cfg A).valid (toNValue o) = true) :
+    shape2 o.view = [A, numFeatures cfg.sensorRange] ∧ o.view.flatten.length = A * numFeatures cfg.sensorRange ∧
+    shape2 o.mask = [A, 5] ∧ o.mask.flatten.length = A * 5 ∧ 0 ≤ o.stepCount ∧ o.stepCount ≤ cfg.timeLimit :=
+  RobotWarehouse.obs_valid_only cfg A o h
+
+/-- positive: the reset observation and the observation after a step of the witness; negative: a counter beyond the limit, the
+spec of two agents, the spec of another sensor range, a sensor vector one entry short -/
+example :
+    let cfg := Props.C04.rwareWitCfg
+    let s := Props.C04.rwareWit
+    (obsSpec cfg 1).valid (toNValue (resetTs cfg s).obs) = true ∧
+    (obsSpec cfg 1).valid (toNValue (step cfg s [4] []).2.obs) = true ∧
+    (obsSpec cfg 1).valid (toNValue { (resetTs cfg s).obs with stepCount := 11 }) = false ∧
+    (obsSpec cfg 2).valid (toNValue (resetTs cfg s).obs) = false ∧
+    (obsSpec { cfg with sensorRange := 2 } 1).valid (toNValue (resetTs cfg s).obs) = false ∧
+    (obsSpec cfg 1).valid (toNValue { (resetTs cfg s).obs with view := [((resetTs cfg s).obs.view.headD []).drop 1] }) = false := by
+  decide +kernel
+
+/-- reward and discount of EVERY step (all states, all actions, all draws) and of `reset` are accepted by `reward_spec`
+(Array((), float)) and `discount_spec` (BoundedArray((), float, 0, 1)) -/
+theorem robot_warehouse_reward_discount_valid (cfg : Cfg) (s : State) (a d : List Int) (s0 : State) :
+    PzS.rewardSpec.valid (scalarArr (step cfg s a d).2.reward) = true ∧
+    PzS.discountSpec.valid (scalarArr (step cfg s a d).2.discount) = true ∧
+    PzS.rewardSpec.valid (scalarArr (resetTs cfg s0).reward) = true ∧
+    PzS.discountSpec.valid (scalarArr (resetTs cfg s0).discount) = true :=
+  ⟨(RobotWarehouse.step_reward_discount_valid cfg s a d).1, (RobotWarehouse.step_reward_discount_valid cfg s a d).2,
+   (RobotWarehouse.reset_reward_discount_valid cfg s0).1, (RobotWarehouse.reset_reward_discount_valid cfg s0).2⟩
+
+/-- `action_spec.generate_value()` = the all-no-op joint action: the action spec is well-formed, the generated value is a
+member, and `step` answers it from every state with the invariant (counter below the limit, any draw) with a protocol-conform
+timestep whose observation is a member of the spec -/
+theorem robot_warehouse_accepts_generate_value (cfg : Cfg) (A : Nat) (hA : 0 < A) (s : State) (h : SpecInv A s)
+    (hlim : s.stepCount < cfg.timeLimit) (d : List Int) :
+    (actionSpec A).WF = true ∧ (actionSpec A).valid (actionSpec A).generate = true ∧
+    (actionSpec A).generate = actionArr (List.replicate A 0) ∧
+    StepOK none false (step cfg s (List.replicate A 0) d).2 = true ∧
+    (obsSpec cfg A).valid (toNValue (step cfg s (List.replicate A 0) d).2.obs) = true :=
+  RobotWarehouse.accepts_generate_value cfg A hA s h hlim d
+
+/-- membership in `action_spec` is "one entry per agent, each one of 0 … 4" -/
+theorem robot_warehouse_action_spec_iff (A : Nat) (as : List Int) :
+    (actionSpec A).valid (actionArr as) = true ↔ as.length = A ∧ ∀ a ∈ as, 0 ≤ a ∧ a < 5 :=
+  actionSpecN_valid_iff A 5 as
 end Props.C01
 
 namespace Props.C08
